@@ -698,6 +698,31 @@ the offset just after line `callLine k` -/
 def callPositions (cls : String → Bool) (d : Doc) (lens : List Nat) : List Nat :=
   (List.range d.spectra.length).map (fun k => (lens.take (callLine cls d k + 1)).sum)
 
+/-! the same lists in one pass (what the driver evaluates for documents with thousands of spectra;
+equal to the definitions above: `callPositionsFast_eq`) -/
+
+/-- index of the `<spectrum …>` line of every spectrum of `ss` when the first one sits at index `i` -/
+def specStarts (cls : String → Bool) (i : Nat) : List Spec → List Nat
+  | [] => []
+  | s :: r => i :: specStarts cls (i + (renderSpec cls s).length) r
+
+def callLinesFast (cls : String → Bool) (d : Doc) : List Nat :=
+  match d.spectra with
+  | [] => []
+  | s0 :: rest =>
+    let h := (renderHead cls d).length
+    (h + 1) :: specStarts cls (h + 2 + (renderSpec cls s0).length) rest
+
+/-- running totals: entry `i` is `acc` plus the sum of the first `i + 1` lengths -/
+def prefixSums : Nat → List Nat → List Nat
+  | _, [] => []
+  | acc, n :: r => (acc + n) :: prefixSums (acc + n) r
+
+def callPositionsFast (cls : String → Bool) (d : Doc) (lens : List Nat) : List Nat :=
+  let ps := (prefixSums 0 lens).toArray
+  let total := lens.sum
+  (callLinesFast cls d).map (fun i => (ps[i]?).getD total)
+
 /-! ## the images both models give -/
 
 /-- the conversions between the parsed text and the numbers the extraction works on, left opaque:
